@@ -328,3 +328,29 @@ package io
 //@   ensures [window_well_formed] old(dec.head) <= dec.head && dec.head <= dec.tail && dec.tail == old(dec.tail)
 //@   ensures [result_is_a_view_of_the_window] data == nil || (arr(data) == arr(dec.buf) && off(data) == off(dec.buf) + old(dec.head) && len(data) == dec.head - old(dec.head))
 //@   ensures [error_is_sticky] old(dec.Error) != nil ==> dec.Error != nil
+
+//@ func (*Decoder).readStringAsBytes
+//@   prop C04 C05
+//@   nopanic
+//@   use decwf
+//@   modifies @DECWIN, dec.buf[*]
+//@   atmake [allocation_bounded_by_loaded_input] makecap <= dec.tail - dec.head + len(dec.buf)
+//@   loop 1 invariant [shape] utf16Length >= 0 && 0 <= dec.head && dec.head <= dec.tail && dec.tail <= len(dec.buf) && length == dec.tail - dec.head &&
+//@       (!safe ==> data == nil) && (safe ==> data != nil && isnew(arr(data)) && arr(data) != arr(dec.buf))
+//@   loop 1 invariant [room] dec.reader != nil ==> (dec.buf == nil || len(dec.buf) > 0) && ghost.rpos[ival(dec.reader)] >= dec.tail
+//@   loop 1 invariant [coupling] dec.reader != nil ==> forall(j, off(dec.buf) + dec.head, off(dec.buf) + dec.tail, mem(dec.buf, j) == ghost.rstream[ival(dec.reader)][ghost.rpos[ival(dec.reader)] - dec.tail - off(dec.buf) + j])
+//@   loop 1 invariant [memory] dec.reader == nil ==> same(dec.buf, old(dec.buf)) && dec.tail == old(dec.tail)
+//@   loop 1 invariant [memory_bytes] dec.reader == nil ==> forall(j, mem(dec.buf, j) == old(mem(dec.buf, j)))
+//@   loop 1 invariant [sticky] old(dec.Error) != nil ==> dec.Error != nil
+//@   loop 1 invariant [bufid] arr(dec.buf) == old(arr(dec.buf)) || isnew(arr(dec.buf))
+//@   loop 2 invariant [scan] 0 <= off && off <= length + 3 && utf16Length >= 0 && len(buf) == length
+//@   loop 2 invariant [sticky] old(dec.Error) != nil ==> dec.Error != nil
+//@   loop 3 invariant [shape] 0 <= need && need <= 3 && utf16Length >= 0 && 0 <= dec.tail && dec.tail <= len(dec.buf) && safe && data != nil && isnew(arr(data)) && arr(data) != arr(dec.buf)
+//@   loop 3 invariant [room] dec.reader != nil ==> (dec.buf == nil || len(dec.buf) > 0)
+//@   loop 3 invariant [memory] dec.reader == nil ==> same(dec.buf, old(dec.buf)) && dec.tail == old(dec.tail)
+//@   loop 3 invariant [memory_bytes] dec.reader == nil ==> forall(j, mem(dec.buf, j) == old(mem(dec.buf, j)))
+//@   loop 3 invariant [sticky] old(dec.Error) != nil ==> dec.Error != nil
+//@   loop 3 invariant [bufid] arr(dec.buf) == old(arr(dec.buf)) || isnew(arr(dec.buf))
+//@   ensures [negative_length_is_an_error] utf16Length < 0 ==> dec.Error != nil
+//@   ensures [unsafe_result_is_a_view_of_the_window] !safe && data != nil ==> arr(data) == arr(dec.buf) && len(data) <= len(dec.buf)
+//@   ensures [safe_result_is_private] safe && data != nil ==> isnew(arr(data))
